@@ -59,6 +59,34 @@ func challengerOps() []chOp {
 			rc.ObserveElements(res)
 			return nil, nil
 		}},
+		// empty batches are no-ops in plonky2 (the output buffer is cleared only when something is absorbed)
+		{"ObserveElements[0]", func(fc *fctx, c *challenger.Chip, rc *ref.Challenger) ([]frontend.Variable, []*ref.N) {
+			c.ObserveElements([]gl.Variable{})
+			rc.ObserveElements(nil)
+			return nil, nil
+		}},
+		{"ObserveCap[0]", func(fc *fctx, c *challenger.Chip, rc *ref.Challenger) ([]frontend.Variable, []*ref.N) {
+			c.ObserveCap([]poseidon.BN254HashOut{})
+			rc.ObserveCap(nil)
+			return nil, nil
+		}},
+		{"ObserveExtensionElements[0]", func(fc *fctx, c *challenger.Chip, rc *ref.Challenger) ([]frontend.Variable, []*ref.N) {
+			c.ObserveExtensionElements([]gl.QuadraticExtensionVariable{})
+			rc.ObserveExts(nil)
+			return nil, nil
+		}},
+		{"ObserveExtensionElements[2]", func(fc *fctx, c *challenger.Chip, rc *ref.Challenger) ([]frontend.Variable, []*ref.N) {
+			x, rx := fc.qeIn("x")
+			y, ry := fc.qeIn("y")
+			c.ObserveExtensionElements([]gl.QuadraticExtensionVariable{x, y})
+			rc.ObserveExts([]ref.E{rx, ry})
+			return nil, nil
+		}},
+		{"GetNChallenges[0]", func(fc *fctx, c *challenger.Chip, rc *ref.Challenger) ([]frontend.Variable, []*ref.N) {
+			c.GetNChallenges(0)
+			rc.GetNChallenges(0)
+			return nil, nil
+		}},
 		{"ObserveHash", func(fc *fctx, c *challenger.Chip, rc *ref.Challenger) ([]frontend.Variable, []*ref.N) {
 			var h poseidon.GoldilocksHashOut
 			var rh [4]*ref.N
